@@ -59,7 +59,7 @@ func main() {
 	}{
 		{"probes", h.probes}, {"registration", h.registrationTie}, {"schemaversion", h.svCorrespondence},
 		{"pipeline", h.pipeAll}, {"runner", h.runnerAll}, {"blocktx", h.blockTxAll}, {"upgrade", h.fullAll},
-		{"headstate", h.headstateFamily}, {"statedifflength", h.sdlFamily}, {"blocktx-writefail", h.blockTxWriteFailures},
+		{"headstate", h.headstateFamily}, {"statedifflength", h.sdlFamily}, {"blocktx-writefail", h.blockTxWriteFailures}, {"blocktx-readfault", h.blockTxReadFaults},
 	}
 	var timing []string
 	for _, ph := range phases {
@@ -86,6 +86,18 @@ func (h *harness) replay(path string) {
 		return
 	}
 	h.probes()
+	var planned struct {
+		Spec chainSpec `json:"spec"`
+		Plan *btPlan   `json:"plan"`
+	}
+	if strings.HasPrefix(doc.Sig, "blocktx-") && json.Unmarshal(doc.Replay, &planned) == nil && planned.Plan != nil {
+		if d, err := planned.Spec.build(); err == nil {
+			if tw := runBlockTx(d, btPlan{}, false); tw.ret == "done" {
+				h.blockTxReadFaultCase(planned.Spec, d, dump(tw.final), *planned.Plan)
+			}
+		}
+		return
+	}
 	if strings.HasPrefix(doc.Sig, "blocktx-") {
 		var rp btReplay
 		if err := json.Unmarshal(doc.Replay, &rp); err != nil {
